@@ -74,13 +74,15 @@ Proof.
   - split; [intros H; split; auto; discriminate | tauto].
 Qed.
 
-(** a node passes iff there is no filter text, or some selected registered filter field matches *)
+(** a node passes iff there is no filter text, or some selected registered filter field matches: with
+    DefaultFilterFunc on the default tokens, or - with filterType - the registered custom function on the
+    custom tokens ([match_fn], [search_tokens]) *)
 Lemma node_filter_spec cfg a n :
   node_filter cfg a n = true <->
   a_ftext a = None \/ a_ftext a = Some EmptyString \/
   exists t f, a_ftext a = Some t /\
     In f (cfg_ff cfg) /\ (forall fs, a_ffields a = Some fs -> In (ff_name f) fs) /\
-    default_match (lookup_def EmptyString (ff_attr f) (n_texts n)) (tokens t) = true.
+    match_fn cfg a (lookup_def EmptyString (ff_attr f) (n_texts n)) (search_tokens cfg a t) = true.
 Proof.
   unfold node_filter. destruct (a_ftext a) as [[|c t]|].
   - split; auto.
@@ -91,6 +93,20 @@ Proof.
       exists f. split; auto. apply selected_fields_spec. auto.
   - split; auto.
 Qed.
+
+(** without filterType these are the default tokeniser and DefaultFilterFunc; with a registered name the
+    user's functions; with an unregistered name nothing matches *)
+Lemma match_fn_default cfg a : a_ftype a = None -> match_fn cfg a = default_match /\ search_tokens cfg a = tokens.
+Proof. unfold match_fn, search_tokens. intros ->. split; reflexivity. Qed.
+
+Lemma match_fn_custom cfg a ft tk m :
+  a_ftype a = Some ft -> lookup_custom ft (cfg_customs cfg) = Some (tk, m) ->
+  match_fn cfg a = m /\ search_tokens cfg a = tk.
+Proof. unfold match_fn, search_tokens. intros -> ->. split; reflexivity. Qed.
+
+Lemma match_fn_unregistered cfg a ft text toks :
+  a_ftype a = Some ft -> lookup_custom ft (cfg_customs cfg) = None -> match_fn cfg a text toks = false.
+Proof. unfold match_fn. intros -> ->. reflexivity. Qed.
 
 Lemma apply_text_filter_spec cfg l a n :
   In n (apply_text_filter cfg l a) <-> In n l /\ node_filter cfg a n = true.
